@@ -1,9 +1,36 @@
-(* C09 — see DESIGN.md section 7/C09.  Only property theorems here. *)
-From Flyt Require Import Base Script FlowTable Engine BatchConc EngineCorr EngineFacts BatchConcFacts.
+(* C09 — Stop-on-error halts the batch; unprocessed items are never reported as successes.
+   Only property theorems here. All schedules, all item / worker counts, all user code. *)
+From Flyt Require Import Base Script FlowTable Engine BatchConc EngineCorr EngineFacts
+     ItemMon BatchConcInv BatchConcItems BatchConcStop.
 
-(* the concurrent executor only appends callback events (it never rewrites the log and the
-   context is cancelled afterwards exactly when it was before or an event cancelled it) *)
-Theorem C09_executor_appends :
-  forall o rel c k st n s its s' rs, gated_exec o rel c k st n s its = (s', rs) -> ext s s'.
-Proof. exact gated_exec_ext. Qed.
-Print Assumptions C09_executor_appends.
+(* Once the stop flag is up (set by the record step of a failing item in stop mode) it stays
+   up, and an item whose task had not yet passed its stop-flag check — not yet received, or
+   received and waiting for the mutex — is never executed, whatever the rest of the schedule:
+   its events stay empty.  Only tasks that had already passed the check (received earlier by
+   the other workers: at most workers - 1) can still run. *)
+Theorem C09_stop_skips :
+  forall (o : oracle) c nd (items : list val) stopmode nworkers qcap sched s i,
+    BInv items nworkers s -> stopf s && stopmode = true -> unstarted s i ->
+    il (brun o c nd items stopmode qcap s sched) i = [].
+Proof. exact stop_skips_lemma. Qed.
+Print Assumptions C09_stop_skips.
+
+Theorem C09_stop_flag_permanent :
+  forall (o : oracle) c nd (items : list val) stopmode qcap s t s',
+    bstep o c nd items stopmode qcap s t = Some s' -> stopf s = true -> stopf s' = true.
+Proof. exact bstep_stop. Qed.
+Print Assumptions C09_stop_flag_permanent.
+
+(* no fake success, in every mode, for every schedule: the slot of an item without any event is
+   one of the two error slots (settled, first disjunct), never a successful nil result *)
+Theorem C09_no_fake_success :
+  forall (o : oracle) c nd (items : list val) stopmode nworkers qcap,
+    has_exec c = true ->
+    forall s0 sched,
+      let s := brun o c nd items stopmode qcap (binit items nworkers s0) sched in
+      (mpc s = MClose \/ mpc s = MRet) ->
+      length (slots s) = length items /\
+      forall i, i < length items ->
+        exists v, slot_at s i = Some v /\ settled c nd (item_at items i) (il s i) v.
+Proof. exact all_settled_lemma. Qed.
+Print Assumptions C09_no_fake_success.
